@@ -4,63 +4,63 @@
 // Failing check: assertion "attempt to add with overflow"
 #[test]
 fn kani_concrete_playback_mapping_delta_k4_13176970218169802509() {
-    let concrete_vals: Vec<Vec<u8>> = vec![
+    let concrete_vals: std::vec::Vec<std::vec::Vec<u8>> = std::vec![
         // 3ul
-        vec![3, 0, 0, 0, 0, 0, 0, 0],
+        std::vec![3, 0, 0, 0, 0, 0, 0, 0],
         // 3463268124720050688ul
-        vec![0, 50, 223, 159, 2, 0, 16, 48],
+        std::vec![0, 50, 223, 159, 2, 0, 16, 48],
         // 4ul
-        vec![4, 0, 0, 0, 0, 0, 0, 0],
+        std::vec![4, 0, 0, 0, 0, 0, 0, 0],
         // 0ul
-        vec![0, 0, 0, 0, 0, 0, 0, 0],
+        std::vec![0, 0, 0, 0, 0, 0, 0, 0],
         // 0ul
-        vec![0, 0, 0, 0, 0, 0, 0, 0],
+        std::vec![0, 0, 0, 0, 0, 0, 0, 0],
         // 1
-        vec![1],
+        std::vec![1],
         // 2594073385365405696ul
-        vec![0, 0, 0, 0, 0, 0, 0, 36],
+        std::vec![0, 0, 0, 0, 0, 0, 0, 36],
         // 3ul
-        vec![3, 0, 0, 0, 0, 0, 0, 0],
+        std::vec![3, 0, 0, 0, 0, 0, 0, 0],
         // 3463268113447911424ul
-        vec![0, 0, 0, 0, 0, 0, 16, 48],
+        std::vec![0, 0, 0, 0, 0, 0, 16, 48],
         // 2918332558536081419ul
-        vec![11, 0, 0, 0, 0, 0, 128, 40],
+        std::vec![11, 0, 0, 0, 0, 0, 128, 40],
         // 2612087783874887680ul
-        vec![0, 0, 0, 0, 0, 0, 64, 36],
+        std::vec![0, 0, 0, 0, 0, 0, 64, 36],
         // 144115188075855872ul
-        vec![0, 0, 0, 0, 0, 0, 0, 2],
+        std::vec![0, 0, 0, 0, 0, 0, 0, 2],
         // 1
-        vec![1],
+        std::vec![1],
         // 2197756618425237504ul
-        vec![0, 0, 0, 16, 0, 0, 128, 30],
+        std::vec![0, 0, 0, 16, 0, 0, 128, 30],
         // 3ul
-        vec![3, 0, 0, 0, 0, 0, 0, 0],
+        std::vec![3, 0, 0, 0, 0, 0, 0, 0],
         // 576460752303423488ul
-        vec![0, 0, 0, 0, 0, 0, 0, 8],
+        std::vec![0, 0, 0, 0, 0, 0, 0, 8],
         // 3458764513820540928ul
-        vec![0, 0, 0, 0, 0, 0, 0, 48],
+        std::vec![0, 0, 0, 0, 0, 0, 0, 48],
         // 2738188573441261559ul
-        vec![247, 255, 255, 255, 255, 255, 255, 37],
+        std::vec![247, 255, 255, 255, 255, 255, 255, 37],
         // 2305843009213693952ul
-        vec![0, 0, 0, 0, 0, 0, 0, 32],
+        std::vec![0, 0, 0, 0, 0, 0, 0, 32],
         // 1
-        vec![1],
+        std::vec![1],
         // 4557642823167374336ul
-        vec![0, 244, 255, 15, 0, 0, 64, 63],
+        std::vec![0, 244, 255, 15, 0, 0, 64, 63],
         // 3ul
-        vec![3, 0, 0, 0, 0, 0, 0, 0],
+        std::vec![3, 0, 0, 0, 0, 0, 0, 0],
         // 6755399441056263ul
-        vec![7, 2, 0, 0, 0, 0, 24, 0],
+        std::vec![7, 2, 0, 0, 0, 0, 24, 0],
         // 2846274964498153467ul
-        vec![251, 255, 255, 255, 255, 255, 127, 39],
+        std::vec![251, 255, 255, 255, 255, 255, 127, 39],
         // 3873095679538626572ul
-        vec![12, 0, 0, 0, 0, 0, 192, 53],
+        std::vec![12, 0, 0, 0, 0, 0, 192, 53],
         // 1729382256910270464ul
-        vec![0, 0, 0, 0, 0, 0, 0, 24],
+        std::vec![0, 0, 0, 0, 0, 0, 0, 24],
         // 1
-        vec![1],
+        std::vec![1],
         // 4611686018427387903ul
-        vec![255, 255, 255, 255, 255, 255, 255, 63],
+        std::vec![255, 255, 255, 255, 255, 255, 255, 63],
     ];
     kani::concrete_playback_run(concrete_vals, mapping_delta_k4);
 }
